@@ -65,7 +65,7 @@ fn c14_t_xlsb_ref_lastrow_l3() {
 #[kani::proof]
 #[kani::unwind(18)]
 #[kani::stub(crate::utils::push_column, crate::k_kcommon::model_push_column_l1)]
-fn c14_q_xlsb_area() {
+fn c14_t_xlsb_area() {
     let c1: u16 = kani::any();
     let c2: u16 = kani::any();
     kani::assume(c1 < 26 && c2 < 26);
